@@ -188,6 +188,11 @@ def quantity_of(t):
     if kind == "simple":
         s = Scalar(2.0, t["unit"], t["cat"])
         return s.GetQuantity(), s
+    if kind == "simple_u":
+        # the unit alone, after the same unit was used under another category of its quantity type
+        Scalar(1.0, t["unit"], t["primer"])
+        s = Scalar(2.0, t["unit"])
+        return s.GetQuantity(), s
     if kind == "list":
         # the list / tuple form: what GetComposingUnits() / GetComposingCategories() of a quantity return
         cont = tuple if t.get("as_tuple") else list
@@ -348,6 +353,15 @@ def _list_case(ctx, t):
 
 def _strings_case(ctx, t):
     """Builds the quantity on the real code to read its internal entry list (the model's input)."""
+    if t["kind"] == "simple_u":
+        # the model gets what the request MEANS (the unit under its registered default category), not what came back
+        ent = [[t["cat"], t["unit"], 1]]
+        cats, names = lookups(ctx.db, ent)
+        return dict(op="strings",
+                    entries=[[str(sym(c)), str(sym(u)), e] for c, u, e in ent],
+                    cats=[[str(sym(c)), str(sym(qt))] for c, qt in cats],
+                    names=[[str(sym(qt)), str(sym(u)), str(sym(n))] for qt, u, n in names],
+                    _t=dict(t, entries=ent))
     with Pushed(ctx.db):
         try:
             q, _s = quantity_of(t)
@@ -445,6 +459,26 @@ def _gen(ctx, salt, scale):
             c = _strings_case(ctx, dict(kind="simple", unit=u, cat=rng.choice(ok)))
             if c is not None:
                 yield c
+    # the unit alone (default category) after the same unit was used under ANOTHER category of its quantity type,
+    # preferably the one named like the quantity type
+    pool_u = [(u, qt) for u, qt in ctx.all_units]
+    if not thorough:
+        pool_u = rng.sample(pool_u, 300)
+    for u, qt in pool_u:
+        try:
+            dc = ctx.db.GetDefaultCategory(u)
+        except Exception:
+            dc = None
+        if not dc:
+            continue
+        others = []
+        for c, ci in sorted(ctx.db.categories_to_quantity_types.items()):
+            if ci.quantity_type == qt and c != dc:
+                others.append(c)   # a unit is accepted under every category of its quantity type
+        if not others:
+            continue
+        primer = qt if (qt in others and rng.random() < 0.7) else rng.choice(others)
+        yield _strings_case(ctx, dict(kind="simple_u", unit=u, primer=primer, cat=dc))
     # _MakeStr directly
     texts = ["length", "time", "m", "", "a b", "x * y", "volume per time", "(p)", "1"]
     for i in range(n_mk):
@@ -504,7 +538,7 @@ def case_key(c):
 
 def show(c):
     t = c["_t"]
-    return {k: v for k, v in t.items() if k in ("kind", "recipe", "entries", "unit", "cat", "items", "build_error", "detail", "pairs", "lcats", "as_tuple")} \
+    return {k: v for k, v in t.items() if k in ("kind", "recipe", "entries", "unit", "cat", "items", "build_error", "detail", "pairs", "lcats", "as_tuple", "primer")} \
         if t["kind"] != "parse" else dict(kind="parse", syms=t["syms"][:8])
 
 
@@ -682,6 +716,10 @@ def oracle(c, ctx):
                 if [unit, cat, qt] != want or e0 != 1:
                     return dict(inp, clause="simple quantity strings are its registered unit/category/type",
                                 got=[unit, cat, qt], want=want)
+                if t["kind"] == "simple_u" and [u0, c0] != [t["unit"], t["cat"]]:
+                    return dict(inp, clause="a quantity built from a unit alone has the unit's registered default category, "
+                                            "whatever was built before", got=[u0, c0], want=[t["unit"], t["cat"]],
+                                built_before="Scalar(1.0, %r, %r)" % (t["unit"], t["primer"]))
                 if t["kind"] == "simple" and [u0, c0] != [t["unit"], t["cat"]]:
                     return dict(inp, clause="simple quantity keeps the unit and category it was built with",
                                 got=[u0, c0], want=[t["unit"], t["cat"]])
